@@ -112,7 +112,7 @@ fn permutations(inner: &[Ev], must_start_with_pre: bool) -> Vec<Vec<Ev>> {
 
 pub fn run() {
 	let cx = ctx();
-	cx.note("rule", json!("irregular-but-tolerated inputs: every permutation of a frame's pre/post/item events that keeps each character's pre before its post (before 2.2: starting with a pre), x junk after Game End inside the raw element (1, 2, size(Game End)+1 bytes that are not a second Game End), x unknown events, x Game End absent, x metadata absent - all combinations, in all three framing regimes. For each input the reader accepts: the written .slp declares exactly the measured length of its raw element (measured from the file length and the harness's own encoding of the metadata), reads again, the re-read game equals the first on start, end, metadata, gecko codes and all frame data, and writing it again reproduces the written file. Every case is non-trivial (carries at least a non-canonical order or another irregularity, except the identity permutation)"));
+	cx.note("rule", json!("irregular-but-tolerated inputs: every permutation of a frame's pre/post/item events that keeps each character's pre before its post (before 2.2: starting with a pre), x junk after Game End inside the raw element (1, 2, size(Game End)+1 bytes that are not a second Game End), x unknown events, x Game End absent, x metadata absent - all combinations, in all three framing regimes, on three base histories (follower absent; leader absent + whole Ice-Climbers pair absent; Gecko list filling its last block exactly); plus the canonical history space of C04 and Gecko lists of 512/1024/1536/700/66000 bytes. For each input the reader accepts: the written .slp declares exactly the measured length of its raw element (measured from the file length and the harness's own encoding of the metadata), reads again, the re-read game equals the first on start, end, metadata, gecko codes and all frame data, and writing it again reproduces the written file. Every case is non-trivial (carries at least a non-canonical order or another irregularity, except the identity permutation)"));
 	cx.note("exhaustive", json!(true));
 	cx.note("assumptions", json!(["inputs the reader rejects are outside the property's quantifier; their number is reported as not_accepted"]));
 	let versions: Vec<(u8, u8)> = if cx.quick() { vec![(0, 1), (2, 0), (2, 2), (3, 0), (3, 16)] } else { spec::v_rep() };
@@ -120,13 +120,36 @@ pub fn run() {
 	for v in versions {
 		let regime = spec::regime(v);
 		let ports = vec![pc(0, false), PortCfg { port: 2, ics: true, ptype: 1 }];
-		let mut a = base_replay(v, ports, 2);
+	  for variant in 0..3usize {
+		let mut a = base_replay(v, ports.clone(), 2);
 		a.frames[1].present[1][1] = false;
 		if regime == 2 {
 			a.frames[0].items = 1;
 		}
 		if spec::gte(v, (3, 3)) {
 			a.gecko = Gecko::Live { live: 600, nonzero_pad: true };
+		}
+		match variant {
+			1 => {
+				// a leader absent from the permuted frame, the whole pair absent from the other
+				a.frames[0].present[0][0] = false;
+				a.frames[1].present[1] = [false, false];
+				if regime == 2 {
+					a.frames[1].items = 2;
+				}
+			}
+			2 => {
+				// a Gecko list that fills its last block exactly
+				if !spec::gte(v, (3, 3)) {
+					continue;
+				}
+				a.gecko = Gecko::Live { live: 1024, nonzero_pad: false };
+				a.frames[0].present[1][0] = false;
+			}
+			_ => {}
+		}
+		if cx.quick() && variant > 0 && !matches!(v, (0, 1) | (2, 2) | (3, 16)) {
+			continue;
 		}
 		let rec = record(&a);
 		let doc = rec.doc.clone();
@@ -173,11 +196,26 @@ pub fn run() {
 									d2.metadata = None;
 								}
 								let class: &'static str = if ends == 0 { "no-end" } else if junk > 0 { "junk-after-end" } else if unk > 0 { "unknown-event" } else if !meta { "no-metadata" } else { "permutation" };
-								jobs.push((d2.assemble(), format!("v{}.{} row {} order {:?} junk={} unknown={} ends={} meta={}", v.0, v.1, target_row, perm.iter().map(|e| e.tag).collect::<Vec<_>>(), junk, unk, ends, meta), class));
+								jobs.push((d2.assemble(), format!("v{}.{} variant {} row {} order {:?} junk={} unknown={} ends={} meta={}", v.0, v.1, variant, target_row, perm.iter().map(|e| e.tag).collect::<Vec<_>>(), junk, unk, ends, meta), class));
 							}
 						}
 					}
 				}
+			}
+		}
+	  }
+	}
+	// the canonical history space as well: the fixed-point oracle looks at other things than C01's byte comparison
+	crate::gen::history_replays(crate::gen::Depth::Quick, |a, _| {
+		let label = a.describe();
+		jobs.push((record(&a).doc.assemble(), label, "canonical-history"));
+	});
+	for v in spec::v_rep() {
+		if spec::gte(v, (3, 3)) {
+			for live in [512u32, 1024, 1536, 700, 66000] {
+				let mut a = crate::gen::per_version_replay(v, Fill::A);
+				a.gecko = Gecko::Live { live, nonzero_pad: live == 700 };
+				jobs.push((record(&a).doc.assemble(), a.describe(), "gecko"));
 			}
 		}
 	}
